@@ -8,9 +8,11 @@ use samlang_heap::PStr;
 
 fn evaluate_bin_op(operator: BinaryOperator, v1: i32, v2: i32) -> Option<i32> {
   match operator {
-    BinaryOperator::MUL => Some(v1 * v2),
+    // Fold to what the target computes at run time: 32-bit arithmetic wraps around, and a division
+    // that traps at run time is left in place.
+    BinaryOperator::MUL => Some(v1.wrapping_mul(v2)),
     BinaryOperator::DIV => {
-      if v2 == 0 {
+      if v2 == 0 || (v1 == i32::MIN && v2 == -1) {
         None
       } else {
         Some(v1 / v2)
@@ -20,11 +22,11 @@ fn evaluate_bin_op(operator: BinaryOperator, v1: i32, v2: i32) -> Option<i32> {
       if v2 == 0 {
         None
       } else {
-        Some(v1 % v2)
+        Some(v1.wrapping_rem(v2))
       }
     }
-    BinaryOperator::PLUS => Some(v1 + v2),
-    BinaryOperator::MINUS => Some(v1 - v2),
+    BinaryOperator::PLUS => Some(v1.wrapping_add(v2)),
+    BinaryOperator::MINUS => Some(v1.wrapping_sub(v2)),
     BinaryOperator::LAND => Some(v1 & v2),
     BinaryOperator::LOR => Some(v1 | v2),
     BinaryOperator::SHL => Some(v1 << v2),
@@ -59,7 +61,7 @@ fn merge_binary_expression(
         Some(BinaryExpression {
           operator: BinaryOperator::PLUS,
           e1: inner.e1,
-          e2: inner.e2 + outer_const,
+          e2: inner.e2.wrapping_add(outer_const),
         })
       } else {
         None
@@ -70,23 +72,30 @@ fn merge_binary_expression(
         Some(BinaryExpression {
           operator: BinaryOperator::MUL,
           e1: inner.e1,
-          e2: inner.e2 * outer_const,
+          e2: inner.e2.wrapping_mul(outer_const),
         })
       } else {
         None
       }
     }
-    BinaryOperator::LT
-    | BinaryOperator::LE
-    | BinaryOperator::GT
-    | BinaryOperator::GE
-    | BinaryOperator::EQ
-    | BinaryOperator::NE => {
+    BinaryOperator::EQ | BinaryOperator::NE => {
       if inner.operator == BinaryOperator::PLUS {
         Some(BinaryExpression {
           operator: outer_operator,
           e1: inner.e1,
-          e2: outer_const - inner.e2,
+          e2: outer_const.wrapping_sub(inner.e2),
+        })
+      } else {
+        None
+      }
+    }
+    BinaryOperator::LT | BinaryOperator::LE | BinaryOperator::GT | BinaryOperator::GE => {
+      if inner.operator == BinaryOperator::PLUS {
+        // `x + c1 < c2` is only `x < c2 - c1` when the new constant is representable.
+        Some(BinaryExpression {
+          operator: outer_operator,
+          e1: inner.e1,
+          e2: outer_const.checked_sub(inner.e2)?,
         })
       } else {
         None
